@@ -51,6 +51,35 @@ def loop_ok(n):
         e = F.strip(le["e"])
         if F.is_call(e, "std::iter::Iterator::next") and le["pat"].get("variant") == "Some":
             return "while-let over " + (F.strip(e["args"][0]).get("ty") or "?")
+    # `while v > 0 && .. { v -= k; }` / `while v < <len or bound> && .. { v += k; }`: a strictly monotone integer counter with a
+    # bound in the loop condition, stepped by a positive literal as an unconditional top-level statement of the body
+    if cand.get("k") == "If" and cand.get("else") is not None and FL.diverges(cand["else"]):
+        facts = []
+        FL.split_cond(cand["cond"], True, facts)
+        then = F.strip(cand["then"])
+        tst = then.get("stmts", []) if then.get("k") == "Block" else []
+        steps = []
+        for s_ in tst:
+            if s_["k"] == "Expr":
+                e_ = F.strip(s_["e"])
+                if e_.get("k") == "AssignOp" and C.int_lit(e_["r"]) is not None and C.int_lit(e_["r"]) >= 1 and F.strip(e_["l"]).get("k") in ("Var", "Upvar"):
+                    steps.append((F.strip(e_["l"]), e_["op"]))
+        for v_, op_ in steps:
+            writes = [x for x in F.walk(then) if x.get("k") in ("Assign", "AssignOp") and FL.same_place(x["l"], v_)]
+            if len(writes) != 1:
+                continue
+            for f_, pol in facts:
+                f_ = F.strip(f_)
+                if not pol or f_.get("k") != "Binary":
+                    continue
+                if op_.startswith("Sub") and ((f_["op"] == "Gt" and FL.same_place(f_["l"], v_) and C.int_lit(f_["r"]) is not None)
+                                              or (f_["op"] == "Lt" and FL.same_place(f_["r"], v_) and C.int_lit(f_["l"]) is not None)):
+                    return "while over a strictly decreasing counter bounded below: std::ops::Range"
+                if op_.startswith("Add") and f_["op"] == "Lt" and FL.same_place(f_["l"], v_) and not any(
+                        x.get("k") in ("Assign", "AssignOp") for x in F.walk(f_["r"])):
+                    rb = FL.peel(f_["r"])
+                    if F.is_call(rb, *C.LEN_CALLS) or C.int_lit(rb) is not None:
+                        return "while over a strictly increasing counter bounded above: std::ops::Range"
     return None
 
 
